@@ -96,7 +96,7 @@ def _f15(vio):
     return vio.get("kind") == "process-death" and "is_subrange_equal" in _report(vio)
 
 
-C06_KINDS = ("sort-predicate", "unexpected-error", "wrong-value")
+C06_KINDS = ("sort-predicate", "unexpected-error", "wrong-value", "value-differs", "outcome-kind-differs")
 
 
 def _layouts(vio):
@@ -221,9 +221,9 @@ def _f29(vio):
 def _f24(vio):
     if _op_of(vio).get("op") != "mergemany":
         return False
-    if vio.get("kind") == "value-differs":
-        return _has_class(vio, ("EmptyArray",))
-    if vio.get("kind") == "wrong-value":
+    if vio.get("kind") == "value-differs" and _has_class(vio, ("EmptyArray",)):
+        return True
+    if vio.get("kind") in ("wrong-value", "value-differs"):
         from vlib import model
         for d in _layouts(vio):
             for _p, n in model.walk(d):
@@ -234,9 +234,15 @@ def _f24(vio):
 
 @mechanism("F25-merge-regular-vs-numpy")
 def _f25(vio):
-    return vio.get("kind") in ("outcome-kind-differs", "unexpected-error") and _op_of(vio).get("op") == "mergemany" and \
-        ("cannot merge ListArray64 with NumpyArray" in str(vio.get("detail")) or
-         "cannot merge NumpyArray with RegularArray" in str(vio.get("detail"))) and _has_class(vio, ("RegularArray",))
+    if vio.get("kind") not in ("outcome-kind-differs", "unexpected-error") or _op_of(vio).get("op") != "mergemany":
+        return False
+    import re
+    if not re.search(r"cannot merge (ListArray|ListOffsetArray|RegularArray|NumpyArray)\w* with "
+                     r"(ListArray|ListOffsetArray|RegularArray|NumpyArray)", str(vio.get("detail"))):
+        return False
+    from vlib import model
+    nd = any(n["c"] == "NumpyArray" and len(n["shape"]) > 1 for d in _layouts(vio) for _p, n in model.walk(d))
+    return nd or _has_class(vio, ("RegularArray",))
 
 
 @mechanism("F26-combinations-through-records")
@@ -249,6 +255,9 @@ def _f26(vio):
 def _f32(vio):
     op = _op_of(vio)
     det = vio.get("detail") or {}
+    if vio.get("kind") in ("value-differs", "wrong-value") and op.get("op") == "localindex" and \
+            _has_class(vio, ("RecordArray",)):
+        return True
     return vio.get("kind") in ("value-differs", "wrong-value") and op.get("op") == "num" and \
         _has_class(vio, ("RecordArray",)) and \
         ("{" in str(det.get("A", "")) + str(det.get("B", "")) + str(det.get("C", "")) + str(det.get("got", "")))
@@ -388,8 +397,8 @@ def _f39(vio):
 
 @mechanism("F10d-reduce-outer-axis")
 def _f10d(vio):
-    return vio.get("kind") in ("wrong-value", "unexpected-error") and _op_of(vio).get("op") == "reduce" and \
-        _axis_is_outer(vio)
+    return vio.get("kind") in ("wrong-value", "unexpected-error", "value-differs", "outcome-kind-differs") and \
+        _op_of(vio).get("op") == "reduce" and _axis_is_outer(vio)
 
 
 def _slice_items(vio):
